@@ -1054,12 +1054,13 @@ def gen_c08(T, tier, seed, budget, out: Outcome):
     t0 = time.time()
     n = 400 if tier == "quick" else 20000
     out.rule = ("abstract molecules (<=12 atoms incl. D/T) rendered as V2000 with charge codes or M CHG/M RAD lines (stale codes that must be superseded, "
-                "explicit zero entries, 1-8 entries per line over shuffled lines, unrelated M/G/V lines) and as V3000. Non-trivial = distinct V2000 renderings.")
+                "explicit zero entries, ISO entries with arbitrary values naming D/T atoms, 1-8 entries per line over shuffled lines, unrelated M/G/V lines) and as V3000. "
+                "Non-trivial = distinct V2000 renderings.")
     for _ in range(n):
         if time.time() - t0 > budget or len(out.violations) >= 3:
             return
         m = molgen.rand_mol_v2000(rnd, 12)
-        mode = {"chg_lines": rnd.random() < .6, "stale_codes": rnd.random() < .5, "zeros": rnd.random() < .3, "extras": True}
+        mode = {"chg_lines": rnd.random() < .6, "stale_codes": rnd.random() < .5, "zeros": rnd.random() < .3, "extras": True, "iso_on_dt": rnd.random() < .4}
         if not mode["chg_lines"]:
             for a in m.atoms:
                 if a["chg"]:
